@@ -40,7 +40,7 @@ def run(chk, tmp, replay=None):
                        "non-trivial = all but the empty line sequence")
     chk.cov["bounds"] = {"packages": "one target: 3 dependency lists x 4 input lists (literal, glob, missing + glob) x exclude or not x 3 output lists x no-cache x fingerprint x platforms x timeout x bin_output, "
                                      "package default platforms, optional alias: 9 216 abstract packages", "line_sequences": "all sequences of 7 line kinds up to length %d" % (5 if quick else 6),
-                         "corruptions": "10 structural JSON corruptions; type confusion: every node of a rich document x 24 wrongly typed values (JSON, YAML), YAML-only shapes (empty entries, anchors, tags), every Makefile annotation field x menu, every Starlark builtin keyword x 27 literals; every single-byte deletion/truncation/insertion (thorough: replacement, transposition) of one rendering per format; seeded multi-byte mutations of renderings in all four formats", "worker_counts": [1, 2, 4, 8, 16]}
+                         "corruptions": "10 structural JSON corruptions; type confusion: every node of a rich document x 24 wrongly typed values (JSON, YAML), YAML-only shapes (empty entries, anchors, tags), every Makefile and script-target annotation field x menu, every Starlark builtin keyword x 27 literals; every single-byte deletion/truncation/insertion (thorough: replacement, transposition) of one rendering per format; seeded multi-byte mutations of renderings in all four formats", "worker_counts": [1, 2, 4, 8, 16]}
     if p.returncode != 0:
         text = p.stderr
         frames = re.findall(r"(" + re.escape(core.REPO) + r"/internal/\S+:\d+)", text)
@@ -77,4 +77,4 @@ def run(chk, tmp, replay=None):
     chk.sample(cases["lines"][200])
     chk.assumptions += ["corruptions beyond single edits and type confusion are seeded samples; all corruptions are judged only for panics/hangs (a TLA+ model of YAML/JSON/Starlark lexing would be a re-implementation, DESIGN.md section 9)",
                         "Makefile annotations cannot express command, exclude_inputs, bin_output, aliases or package defaults; Starlark cannot express package default platforms: those packages are not rendered in that format",
-                        "script (*.grog.sh) and pkl loaders are not exercised"]
+                        "script targets (*.grog.sh) are exercised for robustness only (type confusion, single edits), not for cross-format agreement; the pkl loader needs the external pkl binary and is not exercised"]
